@@ -23,10 +23,21 @@ func runLock(cfg *config) {
 	id := cfg.nextID + 1
 	cfg.tr.Case(id)
 	os.RemoveAll("data")
+	// a CREATE DATABASE slowed down past several timer ticks (a slow disk): the flusher of the store
+	// being created runs beside it
+	var slowed int32
+	storage.VerifSetHook(func(ev string, arg uint64) {
+		if (ev == "hdr.write" || ev == "page.write") && atomic.CompareAndSwapInt32(&slowed, 0, 1) {
+			time.Sleep(260 * time.Millisecond)
+		}
+	})
+	cfg.tr.Op("idle 0")
 	if err := storage.CreateDB("lk"); err != nil {
 		fmt.Fprintln(os.Stderr, err)
 		os.Exit(1)
 	}
+	storage.VerifSetHook(nil)
+	cfg.tr.Out("ok")
 	sess := &engine.Session{}
 	must := func(q string) {
 		if err := sess.ExecQuery(q); err != nil {
@@ -35,6 +46,15 @@ func runLock(cfg *config) {
 		}
 	}
 	must("USE lk")
+	// a session that has opened the database and runs no statement for several timer ticks: the
+	// flusher's first ticks meet whatever the open left behind, with no statement lock in between
+	idle := func(ms int) {
+		cfg.tr.Op("idle %d", ms)
+		time.Sleep(time.Duration(ms) * time.Millisecond)
+		cfg.tr.Out("ok")
+		cfg.st.Inc("idle")
+	}
+	idle(260)
 	must("CREATE TABLE t (a int, b varchar(255))")
 	var armed, parked, writes int32
 	// inStmt: between the first lock acquisition of the statement being executed and its return;
@@ -153,6 +173,14 @@ func runLock(cfg *config) {
 		atomic.StoreInt32(&gap, 0)
 		cfg.tr.Out("ok writes-inside-statement=%d", atomic.LoadInt32(&inside))
 	}
+	// reopen with data in the file: idle after the open, close without a statement, open again
+	sess.Close()
+	sess = &engine.Session{}
+	must("USE lk")
+	idle(230)
+	sess.Close()
+	sess = &engine.Session{}
+	must("USE lk")
 	rounds := 2 * cfg.scale
 	for i := 0; i < rounds; i++ {
 		park("insert", fmt.Sprintf("INSERT INTO t VALUES (%d, 'x'), (%d, 'y'), (%d, 'z')", 3*i, 3*i+1, 3*i+2))
